@@ -521,3 +521,31 @@ def run_bracketings(seed=0):
     finally:
         shutil.rmtree(scratch, ignore_errors=True)
     return calls, problems
+
+
+def run_stacked_lru(seed=0):
+    """two bounded RAM caches for the same field, one above the other with only pass-through layers (or nothing) between them, in every
+    order of sizes: the upper `CacheToRam(size=k)` hits on its k most recently used keys whatever sits below it"""
+    import itertools
+    problems, calls = [], 0
+    for lo, hi, between in itertools.product([1, 2, 3], [1, 2, 4], ['nothing', 'transform', 'unrelated-cache']):
+        world = SymWorld()
+        b = Builder(world, roots=[])
+        src = {'k': 'source', 'cls': 'SL', 'ids': ['a'], 'fields': {'a': {'args': ['i']}, 'b': {'args': ['i']}}, 'params': {}, 'cargs': {}, 'defaults': {}}
+        mid = {'nothing': [], 'transform': [{'k': 'transform', 'cls': 'SM', 'fields': {'c': {'args': ['b']}}, 'params': {}, 'cargs': {}, 'defaults': {}, 'inherit': True}],
+               'unrelated-cache': [{'k': 'ram', 'names': ['b'], 'size': 1}]}[between]
+        layers = [src, {'k': 'ram', 'names': ['a'], 'size': lo}] + mid + [{'k': 'ram', 'names': ['a'], 'size': hi}]
+        f = b.layer({'k': 'chain', 'flavour': 'chain', 'layers': layers})._compile('a')
+        keys = [f'k{j}' for j in range(max(lo, hi) + 1)]
+        for k in keys:
+            f(k)
+        mark = world.mark()
+        for k in keys[-hi:]:
+            f(k)
+        calls += len(keys) + hi
+        ran = [c[1][0] for c in world.since(mark)]
+        if ran:
+            problems.append({'sizes': [lo, hi], 'between': between,
+                             'msg': f'CacheToRam(a, size={lo}) >> {between} >> CacheToRam(a, size={hi}): repeating the {hi} most recently used keys '
+                                    f'executed the source again for {ran}'})
+    return calls, problems
